@@ -42,7 +42,7 @@ package stateless
 //@   ensures res ==> op.phase == old(op.phase) || op.phase == optracker.PhaseInProgress || op.phase == optracker.PhaseError
 //@   ensures op.opType == old(op.opType) && op.pin == old(op.pin)
 //@   ensures forall o *optracker.Operation :: o != op ==> *o == old(*o)
-//@   modifies heap(optracker.Operation), rpcN, rpcLastSvc, rpcLastMethod
+//@   modifies heap(optracker.Operation), rpcN, rpcLastSvc, rpcLastMethod, cancelledOps
 
 // "an instruction that cannot be queued is reported as an error rather than dropped"
 //@ func (spt *Tracker) enqueue
@@ -54,7 +54,7 @@ package stateless
 //@   ensures [ongoing-kept] err == nil && spt.optracker.operations[c.Cid] == old(spt.optracker.operations[c.Cid]) ==> spt.optracker.operations == old(spt.optracker.operations)
 //@   ensures [others-untouched] forall k cid.Cid :: k != c.Cid ==> (haskey(spt.optracker.operations, k) <==> haskey(old(spt.optracker.operations), k)) && spt.optracker.operations[k] == old(spt.optracker.operations[k])
 //@   ensures rpcN == old(rpcN)
-//@   modifies heap(optracker.OperationTracker), heap(optracker.Operation)
+//@   modifies heap(optracker.OperationTracker), heap(optracker.Operation), cancelledOps
 
 //@ func (spt *Tracker) Track
 //@   property C05
@@ -63,7 +63,7 @@ package stateless
 //@   ensures [meta-ignored] c.Type == api.MetaType ==> err == nil && spt.optracker.operations == old(spt.optracker.operations) && rpcN == old(rpcN)
 //@   ensures [only-full-queue-fails] err != nil ==> err == ErrFullQueue && haskey(spt.optracker.operations, c.Cid) && spt.optracker.operations[c.Cid].phase == optracker.PhaseError
 //@   ensures [others-untouched] forall k cid.Cid :: k != c.Cid ==> (haskey(spt.optracker.operations, k) <==> haskey(old(spt.optracker.operations), k)) && spt.optracker.operations[k] == old(spt.optracker.operations[k])
-//@   modifies heap(optracker.OperationTracker), heap(optracker.Operation), rpcN, rpcLastSvc, rpcLastMethod
+//@   modifies heap(optracker.OperationTracker), heap(optracker.Operation), rpcN, rpcLastSvc, rpcLastMethod, cancelledOps
 
 //@ func (spt *Tracker) Untrack
 //@   property C05
@@ -72,7 +72,7 @@ package stateless
 //@   ensures [only-full-queue-fails] err != nil ==> err == ErrFullQueue && haskey(spt.optracker.operations, c) && spt.optracker.operations[c].phase == optracker.PhaseError
 //@   ensures [unpin-queued] err == nil && spt.optracker.operations[c] != old(spt.optracker.operations[c]) ==> spt.optracker.operations[c].opType == optracker.OperationUnpin && spt.optracker.operations[c].phase == optracker.PhaseQueued
 //@   ensures rpcN == old(rpcN)
-//@   modifies heap(optracker.OperationTracker), heap(optracker.Operation), heap(api.Pin)
+//@   modifies heap(optracker.OperationTracker), heap(optracker.Operation), heap(api.Pin), cancelledOps
 
 // "After a recover round ... the re-issued pin using the options recorded in the shared pinset"
 //@ func (spt *Tracker) recoverWithPinInfo
@@ -83,7 +83,7 @@ package stateless
 //@   ensures [recorded-options] (old(pi.Status) == api.TrackerStatusPinError || old(pi.Status) == api.TrackerStatusUnexpectedlyUnpinned) && spt.optracker.operations[old(pi.Cid)] != old(spt.optracker.operations[pi.Cid]) && stErr == nil && getErr == nil ==> haskey(pinset, old(pi.Cid)) && *(spt.optracker.operations[old(pi.Cid)].pin) == pinset[old(pi.Cid)]
 //@   ensures [state-consulted] (old(pi.Status) == api.TrackerStatusPinError || old(pi.Status) == api.TrackerStatusUnexpectedlyUnpinned) && haskey(pinset, old(pi.Cid)) && stErr == nil ==> getErr == nil || getErr != state.ErrNotFound
 //@   ensures [other-status-untouched] old(pi.Status) != api.TrackerStatusPinError && old(pi.Status) != api.TrackerStatusUnexpectedlyUnpinned && old(pi.Status) != api.TrackerStatusUnpinError ==> spt.optracker.operations == old(spt.optracker.operations)
-//@   modifies heap(optracker.OperationTracker), heap(optracker.Operation), heap(api.Pin), heap(api.PinInfo), heap(api.IPFSPinStatus), rpcN, rpcLastSvc, rpcLastMethod
+//@   modifies heap(optracker.OperationTracker), heap(optracker.Operation), heap(api.Pin), heap(api.PinInfo), heap(api.IPFSPinStatus), rpcN, rpcLastSvc, rpcLastMethod, cancelledOps
 
 // ---- C06: the per-CID status ----
 //@ spec opaque func remoteFor(p api.Pin, pid peer.ID) bool = !(p.ReplicationFactorMin == -1 && p.ReplicationFactorMax == -1) && !in(pid, elems(p.Allocations))
